@@ -57,11 +57,10 @@
 //     obidistribute --append) it holds its previous content followed by the
 //     output of the run.  The oracle is differential (the same run on a fresh
 //     path) on top of the oracle of the package.
-//   - WriteCSVToFile is NOT in the generator of reuse_test.go: on the pinned tree
-//     it opens its file without O_TRUNC (a shorter output leaves the tail of the
-//     previous content), but no command reaches it (obicsv writes to stdout and
-//     ignores -o).  checkReuse understands func "csv" so that a case can be
-//     replayed by hand.
+//   - WriteCSVToFile was found to open its file without O_TRUNC (a shorter output
+//     left the tail of the previous content; no command reaches it, obicsv writes
+//     to stdout and ignores -o).  Repaired in the repository; the function is in
+//     the generator of reuse_test.go since then.
 //   - Command level (cli_test.go): the output of a command is compared with the
 //     output of the same command line without --compress / in an empty directory;
 //     inputs of the path-reuse histories stay below one reader piece (<= 300 short
